@@ -110,7 +110,7 @@ pub fn worker(ctx: &mut Ctx) {
     let mut lg = LintGroup::new_curated(dict.clone(), Dialect::American);
     lg.set_all_rules_to(Some(true));
     let rule_keys: Vec<String> = lg.iter_keys().map(|s| s.to_string()).collect();
-    let n = ctx.share(6_000, 1_000_000);
+    let n = ctx.share(6_000, 400_000);
     let mut rng = ctx.rng("c19");
     for k in 0..n {
         let hseed = rng.next();
